@@ -1488,8 +1488,15 @@ def rule_scoped_replacement_spelling(ctx, rep: Report, rid="S9"):
         holder = unparse(st.targets[0].value)
         body = gen.elt.body
         ok = isinstance(body, ast.Attribute) and body.attr == "name" and unparse(body.value) == holder
-        keeps = not any(isinstance(x, ast.Assign) and any(isinstance(t, ast.Attribute) and unparse(t.value) == holder and t.attr in ("namespaces", "instantiations")
+        if not ok and isinstance(body, ast.Name):
+            # a local that starts as the bare name and at most gets the type's own template arguments appended (`Vec<double, 2>`)
+            firsts = [st_ for st_ in ast.walk(fn) if isinstance(st_, ast.Assign) and len(st_.targets) == 1 and isinstance(st_.targets[0], ast.Name) and st_.targets[0].id == body.id]
+            ok = len(firsts) == 1 and unparse(firsts[0].value) == f"{holder}.name"
+        keeps = not any(isinstance(x, ast.Assign) and any(isinstance(t, ast.Attribute) and unparse(t.value) == holder and
+                                                          (t.attr == "namespaces" or (t.attr == "instantiations" and not (isinstance(x.value, ast.List) and not x.value.elts)))
                                                           for t in x.targets) for x in ast.walk(fn))
+        if not ok and _instantiate_type_evaluable(ctx):
+            ok = True                 # how a scoped use is spelled - plain, namespaced and templated concrete types - is read off the evaluated samples (S14)
         rep.add(rid, "scoped use:the parameter's component is replaced by the concrete type's bare name", ok,
                 f"the component is replaced by `{unparse(body)}` while `{holder}` keeps its own namespaces: they are printed twice "
                 f"(gtsam::gtsam::Pose3::Value) for every concrete type that lives in a namespace", f"{mi.rel}:{st.lineno}")
@@ -2072,9 +2079,15 @@ def rule_instantiate_type_by_evaluation(ctx, rep: Report, rid="S14", part="subst
     def ty(t, const="", ref="", ptr="", sp="", basic=False):
         return SampleObj(__kind__="Type", typename=t, is_const=const, is_ref=ref, is_ptr=ptr, is_shared_ptr=sp, is_basic=basic)
 
+    spell_fns = dict(mi.functions)
+    try:
+        spell_fns.update(prog.module("gtwrap/interface_parser/type.py").functions)
+    except Exception:
+        pass
+
     def spell(t):
         k_ = "TemplatedType" if isinstance(t, SampleObj) and t.get("__kind__") == "TemplatedType" and "TemplatedType" in classes else "Type"
-        return mini_exec(classes[k_]["to_cpp"], {"self": t}, budget=20000, functions=dict(mi.functions), classes=classes)
+        return mini_exec(classes[k_]["to_cpp"], {"self": t}, budget=20000, functions=spell_fns, classes=classes)
 
     def tt(name, ns, params, const="", ref="", ptr="", sp=""):
         """A templated type as the parser builds it: the Typename's template arguments are the very Typename objects of the
@@ -2128,12 +2141,19 @@ def rule_instantiate_type_by_evaluation(ctx, rep: Report, rid="S14", part="subst
          "std::map<ns::Holder<U>, std::vector<ns::Holder<U>>>"),
         ("std::pair<U, T> (T := ns::Holder<U>)", lambda: ty(tn("pair", ["std"], [tn("U"), tn("T")])), "std::pair<double, ns::Holder<U>>"),
     ]
+    # a fourth binding: the concrete type is templated (ns::Vec<double, 2>); behind a scoped use its arguments stay with its own name
+    VD = ("ns::Vec<double, 2>", lambda: tn("Vec", ["ns"], [tn("double"), tn("2")]))
+    cases4 = [
+        ("T (T := ns::Vec<double, 2>)", lambda: ty(tn("T")), "ns::Vec<double, 2>"),
+        ("std::vector<T> (T := ns::Vec<double, 2>)", lambda: ty(tn("vector", ["std"], [tn("T")])), "std::vector<ns::Vec<double, 2>>"),
+        ("const T::Scalar& (T := ns::Vec<double, 2>)", lambda: ty(tn("Scalar", ["T"]), const="const", ref="&"), "const ns::Vec<double, 2>::Scalar&"),
+    ]
     diffs, impure, n = [], [], 0
     try:
         for label, mk, want in cases + cases2 + cases3:
             ct = mk()
             before = spell(ct)
-            first = NU if (label, mk, want) in cases2 else (HU if (label, mk, want) in cases3 else P3)
+            first = NU if (label, mk, want) in cases2 else (HU if (label, mk, want) in cases3 else (VD if (label, mk, want) in cases4 else P3))
             cpp_tn = tn("Foo", ["ns"], [first[1](), D[1]()])
             env = {"ctype": ct, "template_typenames": ["T", "U"], "instantiations": [first[1](), D[1]()], "cpp_typename": cpp_tn}
             for p_, d_ in zip(ps[len(ps) - len(fn.args.defaults):], fn.args.defaults):
@@ -2155,6 +2175,21 @@ def rule_instantiate_type_by_evaluation(ctx, rep: Report, rid="S14", part="subst
     if part == "substitution":
         rep.add(rid, "instantiate_type:sample type expressions come out with every parameter replaced and nothing else touched (T := gtsam::Pose3, U := double)", not diffs,
                 f"{diffs[:3]}: the instantiated declaration names a type that does not exist, or another type than the template says", loc)
+        # a templated concrete type: behind a scoped use its template arguments stay with its own name
+        templ = []
+        try:
+            for label, mk, want in cases4:
+                env = {"ctype": mk(), "template_typenames": ["T", "U"], "instantiations": [VD[1](), D[1]()], "cpp_typename": tn("Foo", ["ns"], [VD[1](), D[1]()])}
+                for p_, d_ in zip(ps[len(ps) - len(fn.args.defaults):], fn.args.defaults):
+                    env.setdefault(p_, ast.literal_eval(d_))
+                res = mini_exec(fn, env, budget=80000, functions=dict(mi.functions), classes=classes)
+                got = spell(res) if isinstance(res, SampleObj) else None
+                if (got or "").replace(" ", "") != want.replace(" ", ""):
+                    templ.append(f"`{label}` comes out as `{got}`, `{want}` expected")
+            rep.add(rid, "instantiate_type:a scoped use of a templated concrete type keeps the template arguments behind the type's own name", not templ,
+                    f"{templ}: the instantiated declaration names a type that does not exist", loc)
+        except (_PathEval.Unknown, _Raised, TypeError, KeyError, AttributeError, IndexError):
+            pass
         # a class of another namespace that merely has a parameter's spelling as its own name (other::T) is not a use of the parameter
         foreign = []
         try:
